@@ -27,6 +27,7 @@
 #include "util.h"
 #include "vector.h"
 #include "util.h"
+#include "state.h"
 #endif
 
 #ifdef JANET_PEG
@@ -668,11 +669,19 @@ tail:
                     cap = janet_unwrap_cfunction(constant)(s->captures->count - cs.cap,
                                                            s->captures->data + cs.cap);
                     break;
-                case JANET_FUNCTION:
+                case JANET_FUNCTION: {
+                    /* The function may start another match, which gets a depth budget of its own. Charge
+                     * the depth this match holds to the interpreter's budget for nested C calls while the
+                     * function runs, so that nested matches share one limit instead of multiplying theirs.
+                     * (If the call raises, the budget is restored with the rest of the VM state.) */
+                    int32_t held = JANET_RECURSION_GUARD - s->depth;
+                    janet_vm.stackn += held;
                     cap = janet_call(janet_unwrap_function(constant),
                                      s->captures->count - cs.cap,
                                      s->captures->data + cs.cap);
+                    janet_vm.stackn -= held;
                     break;
+                }
             }
             peg_check_subject(s);
             cap_load_keept(s, cs);
